@@ -198,7 +198,10 @@ Definition step (pol : policy) (now : N) (s : cstore) (o : op) : cstore * bool :
   | OpServeMsgChase q cd out =>
       let ids :=
         match serve_msg_exact KB bytes_eqb hid s q cd None with
-        | Some e => e_id e :: map e_id (msg_chase KB bytes_eqb hid s 10 (q_type q) (q_class q) cd e)
+        | Some e =>
+            (* id 0 (never an entry's id) stands for "SERVFAIL: an alias of the chain points back at the question" *)
+            if msg_chase_selfloop KB bytes_eqb hid s 10 (q_name q) (q_type q) (q_class q) cd e then [0]
+            else e_id e :: map e_id (msg_chase KB bytes_eqb hid s 10 (q_type q) (q_class q) cd e)
         | None => []
         end in
       (s, bytes_eqb ids out)
@@ -383,6 +386,7 @@ Definition spec_step (pol : policy) (ss : spec_state) (o : op) : spec_state * bo
   | OpServeMsgChase q cd out =>
       (ss, match out with
            | [] => true
+           | [0] => true             (* SERVFAIL: nothing was served *)
            | first :: rest => hit_okb ss first q cd None && chase_okb ss (q_type q) (q_class q) cd first rest
            end)
   | OpLookup q cd out =>
